@@ -7,7 +7,12 @@ the frame-step table (`forcing_steps`).
 Oracle: served velocity (U and V, at three cells, and through `Forcing.velocity(X, Y, Z)`) = linear interpolation
 in *time* of the two enclosing file frames; every scalar between the two frames and equal to the frame at
 coinciding steps.  Both the chemicals pairing (chemicals Grid + Forcing) and the mine pairing
-(`ladim_plugins.mine`: sedimentation Grid + chemicals Forcing) are driven."""
+(`ladim_plugins.mine`: sedimentation Grid + chemicals Forcing) are driven.
+Sessions: the property is stated per run, for every start offset and time step; a process may make several runs on the same
+forcing files (consecutive runs, ensemble members, split / restarted runs, chemicals and mine side by side).  Every case is
+therefore a session of 1..4 runs on one set of files, each run with its own start time, dt, schedule, stop time, module,
+input_file form, ibm_forcing subset and (several files) file sub-range, created one after the other or all alive at once
+with interleaved updates; every run is judged by the same oracle against the file contents and compared with the model."""
 import importlib, os, tempfile, shutil
 import numpy as np
 from .common import Driver, F, I, L, unF, same_bits, close
@@ -21,12 +26,19 @@ RULE = ("3..8 frames with random spacing (multiples of dt, or not), 1..3 files, 
         "ibm_forcing [] / [temp] / [temp, salt] / [AKs, temp]; files stored as float64, float32 or int16 with per-file "
         "scale_factor/add_offset; ocean_time encoded per file in seconds/hours/days since the start or another epoch. "
         "Observed: U, V and every scalar at three cells (bottom, middle, top level) and Forcing.velocity at the matching points. "
-        "Non-trivial: every (file set, schedule) pair.")
+        "Sessions: after the primary run, 0..3 further runs in the same process on the same forcing files (so 1..4 Forcing objects per file "
+        "set), each with its own start (the primary's start / another frame / a whole number of steps after a frame / any fraction / the "
+        "primary's last update step = restarted run), its own dt (the primary's, or any of 20..1800 s, mostly dividing the frame offsets), "
+        "its own schedule kind and stop time, module chemicals or mine independently of the primary, any input_file form that resolves to the "
+        "same files, an ibm_forcing subset/reordering, and with several files possibly a contiguous sub-range of them; the runs are "
+        "consecutive (create, drive, close) or concurrent (all objects created first, updates interleaved round-robin). "
+        "Non-trivial: every (file set, run) pair.")
 ASSUMPTIONS = ["float32 and int16-scaled forcing files are judged by the oracle with a float32 tolerance and are not compared with the model; "
                "the bit-exact model comparison uses the float64 files",
                "interpolation oracle tolerance 1e-9 relative for float64 files (accumulated increments vs closed-form lerp); "
                "1e-5 relative + 5e-6 absolute for float32/int16 files (the class keeps such fields in float32: |u| <= 0.5, at most 42 "
-               "accumulated float32 increments)",
+               "accumulated float32 increments); further runs of a session may have up to 600 steps per frame interval: absolute "
+               "tolerance max(5e-6, 6e-8 * steps per frame interval) there (one float32 rounding of |u| <= 0.5 per step is <= 1.5e-8)",
                "unaligned dt (known findings F-C06e-*): with strictly increasing truncated frame steps the deviation is accepted as the "
                "known finding only if the served value is the step-indexed interpolation the design limitation predicts, and no "
                "exception is accepted; anything else is reported under *.unaligned_dt.other / C06.update.raises"]
@@ -105,6 +117,80 @@ def _lerp(x, xs, vals):
     return vals[b] + w * (vals[b + 1] - vals[b]), b
 
 
+DT_FOLLOW = [20, 30, 60, 100, 120, 150, 200, 300, 450, 600, 900, 1200, 1800]
+
+
+def _gen_sched(rng, send):
+    """an increasing sequence of update steps that LADiM can issue, up to step `send` (same distribution as gen_case)"""
+    kind = rng.choice(["consecutive", "late", "gaps", "late_gaps"])
+    sched = []
+    t = 0 if kind in ("consecutive", "gaps") else rng.randrange(0, max(1, send // 2 + 1))
+    while t <= send and len(sched) < 60:
+        sched.append(int(t))
+        t += 1 if kind in ("consecutive", "late") or rng.random() < 0.6 else rng.randrange(2, 6)
+    return kind, sched
+
+
+def gen_follower(rng, case, parts, decoys):
+    """A further run made by the same process on the forcing files of `case` (consecutive runs, ensemble members, split or
+    restarted runs, chemicals and mine sharing one forcing class): its own start time, time step, schedule, stop time, module,
+    input_file form, ibm_forcing subset and - with several files - possibly a contiguous sub-range of the files.
+    parts: frame times (s after the primary start) of each file.  All times in the result are relative to the primary start."""
+    dt0 = case["dt"]; nf = len(parts)
+    a, b = 0, nf
+    if nf > 1 and rng.random() < 0.3:
+        ranges = [(i, j) for i in range(nf) for j in range(i + 1, nf + 1) if (i, j) != (0, nf) and sum(len(p) for p in parts[i:j]) >= 2]
+        if ranges:
+            a, b = rng.choice(ranges)
+    sub = [int(x) for p in parts[a:b] for x in p]            # frame times served by these files
+    want = rng.choice(["same", "other_start", "other_start", "other_dt", "other_dt", "both", "both", "restart"])
+
+    def valid_start(s):
+        return sub[0] <= s < sub[-1]
+    if want in ("same", "other_dt") and not valid_start(0):
+        want = "both" if want == "other_dt" else "other_start"
+    if want == "restart":
+        s_r = int(case["sched"][-1]) * dt0                   # the split run continues where the first run made its last update
+        if not (s_r > 0 and valid_start(s_r)):
+            want = "other_start"
+    # time step
+    dt2 = dt0
+    if want in ("other_dt", "both"):
+        span = sub[-1] - sub[0]
+        cands = [d for d in DT_FOLLOW if d != dt0 and span // d <= 600]
+        ref = 0 if want == "other_dt" else sub[0]
+        al = [d for d in cands if all((x - ref) % d == 0 for x in sub)]
+        dt2 = rng.choice(al) if (al and rng.random() < 0.8) else rng.choice(cands)
+    # start
+    mode = "primary_start"
+    if want in ("same", "other_dt"):
+        s = 0
+    elif want == "restart":
+        s = s_r; mode = "restart"
+    else:
+        mode = rng.choice(["on_frame", "between", "between", "fraction"])
+        k = rng.randrange(0, len(sub) - 1)
+        span_k = sub[k + 1] - sub[k]
+        if mode == "between" and (span_k - 1) // dt2 >= 1:
+            s = sub[k] + rng.randrange(1, (span_k - 1) // dt2 + 1) * dt2     # a whole number of steps after frame k, before frame k+1
+        elif mode == "fraction" and span_k >= 2:
+            s = sub[k] + rng.randrange(1, span_k)
+        else:
+            s = sub[k]; mode = "on_frame"
+    assert valid_start(s)
+    ft2 = [x - s for x in sub]
+    tmax = ft2[-1] // dt2
+    stop_step = rng.randrange(1, tmax) if (tmax >= 2 and rng.random() < 0.3) else None
+    kind, sched = _gen_sched(rng, tmax if stop_step is None else stop_step)
+    forms = ["list", "list", "tuple", "pattern_first_last"] + (["pattern"] if (not decoys and (a, b) == (0, nf)) else [])
+    names = list(case["names"])
+    names = rng.choice([names, names, names[:1], names[::-1], []])
+    relation = ("same_start" if s == 0 else "other_start") + "." + ("same_dt" if dt2 == dt0 else "other_dt")
+    return dict(role="follower", dt=dt2, start=int(s), frange=[a, b], frame_times=ft2, sched=sched, kind=kind, stop_step=stop_step,
+                plugin=rng.choice(["chemicals", "mine"]), form=rng.choice(forms), names=list(names), t_np=rng.random() < 0.5,
+                relation=relation, mode=mode)
+
+
 def run(ctx):
     G = importlib.import_module("ladim_plugins.chemicals.gridforce")
     MINE = importlib.import_module("ladim_plugins.mine")
@@ -116,30 +202,30 @@ def run(ctx):
     try:
         for c in range(ctx.n(100, 1000)):
             case = gen_case(ctx.rng)
-            dt = case["dt"]; ft = case["frame_times"]; sched = case["sched"]
-            if not sched:
+            if not case["sched"]:
                 continue
-            names = case["names"]; storage = case["storage"]; form = case["form"]
+            storage = case["storage"]
             # split the frames over files
             nf = case["nfiles"]
-            cuts = sorted(ctx.rng.sample(range(1, len(ft)), nf - 1)) if nf > 1 else []
-            parts = [ft[a:b] for a, b in zip([0] + cuts, cuts + [len(ft)])]
+            ft0 = case["frame_times"]
+            cuts = sorted(ctx.rng.sample(range(1, len(ft0)), nf - 1)) if nf > 1 else []
+            parts = [ft0[a:b] for a, b in zip([0] + cuts, cuts + [len(ft0)])]
             t0 = np.datetime64("2015-09-07T01:00:00")
             t0s = str(t0).replace("T", " ")
             cdir = os.path.join(tmp, "c%d" % c)
             os.makedirs(cdir)
             files = []; fr = {"u": [], "v": []}
-            for nm in names:
+            for nm in case["names"]:
                 fr[nm] = []
 
             def write(path, part, u_i):
                 kw = {}
                 if storage == "int16":
-                    kw["pack"] = _pack_for(ctx.rng, names)
+                    kw["pack"] = _pack_for(ctx.rng, case["names"])
                 if case["units"][u_i] is not None:
                     kw["time_unit"], kw["epoch"] = case["units"][u_i]
                 return romsfile.write_roms(path, ctx.rng, nx=NX, ny=NY, N=NLEV, frame_times=[int(x) for x in part], t0=t0s,
-                                           fields=tuple(names), dtype="f4" if storage == "f4" else "f8", **kw)
+                                           fields=tuple(case["names"]), dtype="f4" if storage == "f4" else "f8", **kw)
 
             for p_i, part in enumerate(parts):
                 path = os.path.join(cdir, "f%02d.nc" % (p_i + 1))
@@ -147,173 +233,239 @@ def run(ctx):
                 files.append(path)
                 for key in fr:
                     fr[key].append(out[key])
-            if form == "pattern_first_last":
+            if case["form"] == "pattern_first_last":
                 # decoy files matched by the pattern but outside [first_file, last_file]: same times as the adjacent file, other values
                 write(os.path.join(cdir, "f00.nc"), parts[0], 0)
                 write(os.path.join(cdir, "f99.nc"), parts[-1], len(parts) - 1)
-            ALL = {key: np.concatenate(v) for key, v in fr.items()}
-            gf = {}
-            if form == "list":
-                gf["input_file"] = list(files)
-            elif form == "tuple":
-                gf["input_file"] = tuple(files)
-            else:
-                gf["input_file"] = os.path.join(cdir, "f*.nc")
-                if form == "pattern_first_last":
-                    gf["first_file"] = files[0]; gf["last_file"] = files[-1]
-            if case["plugin"] == "mine" and form in ("list", "tuple"):
-                gf["grid_file"] = files[0]          # the mine Grid (ladim ROMS Grid) takes a single file name or a pattern
-            stop_s = int(ft[-1]) if case["stop_step"] is None else int(case["stop_step"] * dt)
-            conf = dict(gridforce=gf, start_time=t0, stop_time=t0 + np.timedelta64(stop_s, "s"), dt=dt, ibm_forcing=list(names))
-            cs = dict(case=case, files=len(files))
+            # ---- the session: the primary run and 0..3 further runs of the same process on the same forcing files
+            primary = dict(role="primary", dt=case["dt"], start=0, frange=[0, nf], frame_times=ft0, sched=case["sched"], kind=case["kind"],
+                           stop_step=case["stop_step"], plugin=case["plugin"], form=case["form"], names=list(case["names"]), t_np=case["t_np"])
+            nfollow = ctx.rng.choice([0, 1, 1, 2, 2, 3])
+            followers = [gen_follower(ctx.rng, case, parts, case["form"] == "pattern_first_last") for _ in range(nfollow)]
+            # concurrent: all Forcing objects exist at the same time and are updated in turn (ensemble members in one process);
+            # otherwise each run is created, driven and closed before the next one
+            concurrent = nfollow > 0 and ctx.rng.random() < 0.3
+            specs = [primary] + followers
             ctx.case(key=repr(case), nontrivial=True, sample=case if c < 3 else None)
             ctx.branch("schedule." + case["kind"]); ctx.branch("start." + case["mode"]); ctx.branch("aligned" if case["aligned"] else "unaligned_dt")
-            ctx.branch("plugin." + case["plugin"]); ctx.branch("input." + form); ctx.branch("storage." + storage)
-            ctx.branch("ibm_forcing." + ("+".join(names) or "none"))
+            ctx.branch("plugin." + case["plugin"]); ctx.branch("input." + case["form"]); ctx.branch("storage." + storage)
+            ctx.branch("ibm_forcing." + ("+".join(case["names"]) or "none"))
             ctx.branch("stop.last_frame" if case["stop_step"] is None else "stop.before_last_frame")
             ctx.branch("t_type.np_int64" if case["t_np"] else "t_type.int")
             for un in case["units"]:
                 ctx.branch("time_units.default" if un is None else "time_units.%s.%s" % (un[0], "start" if un[1] is None else un[1][:4]))
-            GridC, ForC = (MINE.Grid, MINE.Forcing) if case["plugin"] == "mine" else (G.Grid, G.Forcing)
-            try:
-                grid = GridC(conf); f = ForC(conf, grid)
-            except SystemExit as e:
-                # every generated configuration is valid: the forcing period covers [start, stop], the frames are strictly
-                # increasing in time and the files exist
-                ctx.branch("rejected_by_forcing_init")
-                ctx.oracle(False, "C06.init.rejected", SITE_INIT, "Grid/Forcing initialisation exits (%r) for a forcing period that covers the run: "
-                           "frames %r s, stop %d s, input %s" % (e, ft, stop_s, form), cs)
-                continue
-            except Exception as e:
-                ctx.oracle(False, "C06.init.raises", SITE_INIT, "Grid/Forcing initialisation raised %r: frames %r s, stop %d s, input %s, time units %r"
-                           % (e, ft, stop_s, form, case["units"]), cs)
-                continue
-            # frame values at the sample cells, as the class reads them: U[frame, k, Ju, Iu] with Iu = slice(i0-1, i1),
-            # V[frame, k, Jv, Iv] with Jv = slice(j0-1, j1), scalars [frame, k, J, I]
-            cells = [tuple(x) for x in case["cells"]]
-            uvals = [ALL["u"][:, k, grid.j0 + j, grid.i0 - 1 + i] for k, j, i in cells]
-            vvals = [ALL["v"][:, k, grid.j0 - 1 + j, grid.i0 + i] for k, j, i in cells]
-            svals = {nm: [ALL[nm][:, k, grid.j0 + j, grid.i0 + i] for k, j, i in cells] for nm in names}
-            # points where Forcing.velocity returns exactly one U (resp. V) node: X on a U-point, Y on a row, Z in the middle of layer k
-            zw = np.asarray(grid.z_w)
+            ctx.branch("session.runs_%d" % len(specs))
+            if nfollow:
+                ctx.branch("session.concurrent" if concurrent else "session.sequential")
 
-            def zmid(k, jc, ic):
-                jc = max(0, min(int(jc), zw.shape[1] - 1)); ic = max(0, min(int(ic), zw.shape[2] - 1))
-                return -0.5 * (zw[k, jc, ic] + zw[k + 1, jc, ic])
-            XU = np.array([grid.i0 + i - 0.5 for k, j, i in cells]); YU = np.array([float(grid.j0 + j) for k, j, i in cells])
-            ZU = np.array([zmid(k, j, np.around(i - 0.5)) for k, j, i in cells])
-            XV = np.array([float(grid.i0 + i) for k, j, i in cells]); YV = np.array([grid.j0 + j - 0.5 for k, j, i in cells])
-            ZV = np.array([zmid(k, np.around(j - 0.5), i) for k, j, i in cells])
-            served = []
-            try:
-                for t in sched:
-                    f.update(np.int64(t) if case["t_np"] else t)
+            def open_run(spec, idx):
+                """configuration, Grid and Forcing of one run; None when the initialisation failed (reported)"""
+                dt = spec["dt"]; ft = spec["frame_times"]; names = spec["names"]; form = spec["form"]
+                a, b = spec["frange"]; fl = files[a:b]
+                ALL = {key: np.concatenate(fr[key][a:b]) for key in ["u", "v"] + list(names)}
+                gf = {}
+                if form == "list":
+                    gf["input_file"] = list(fl)
+                elif form == "tuple":
+                    gf["input_file"] = tuple(fl)
+                else:
+                    gf["input_file"] = os.path.join(cdir, "f*.nc")
+                    if form == "pattern_first_last":
+                        gf["first_file"] = fl[0]; gf["last_file"] = fl[-1]
+                if spec["plugin"] == "mine" and form in ("list", "tuple"):
+                    gf["grid_file"] = fl[0]          # the mine Grid (ladim ROMS Grid) takes a single file name or a pattern
+                start = t0 + np.timedelta64(int(spec["start"]), "s")
+                stop_s = int(ft[-1]) if spec["stop_step"] is None else int(spec["stop_step"] * dt)
+                conf = dict(gridforce=gf, start_time=start, stop_time=start + np.timedelta64(stop_s, "s"), dt=dt, ibm_forcing=list(names))
+                cs = dict(case=case, files=len(fl))
+                lbl = ""
+                if len(specs) > 1:
+                    cs.update(session=specs[:idx + 1] if not concurrent else specs, run=idx, concurrent=concurrent)
+                    lbl = ("[run %d of %d %s runs of one process on the same forcing files: start %+d s, dt %d s, files %d..%d, %s] "
+                           % (idx + 1, len(specs), "concurrent" if concurrent else "consecutive", spec["start"], dt, a + 1, b, spec["plugin"]))
+                if idx > 0:
+                    ctx.case(key=repr((case, idx, spec)), nontrivial=True)
+                    ctx.branch("follower.relation." + spec["relation"]); ctx.branch("follower.start." + spec["mode"])
+                    ctx.branch("follower.dt_%d" % dt); ctx.branch("follower.schedule." + spec["kind"])
+                    ctx.branch("follower.plugin.%s_after_%s" % (spec["plugin"], primary["plugin"]))
+                    ctx.branch("follower.input." + form + ("" if form == primary["form"] else ".other_than_primary"))
+                    ctx.branch("follower.files.all" if (a, b) == (0, nf) else "follower.files.subrange")
+                    ctx.branch("follower.ibm_forcing." + ("same" if names == primary["names"] else "+".join(names) or "none"))
+                    ctx.branch("follower.aligned" if all(x % dt == 0 for x in ft) else "follower.unaligned_dt")
+                    ctx.branch("follower.stop.last_frame" if spec["stop_step"] is None else "follower.stop.before_last_frame")
+                GridC, ForC = (MINE.Grid, MINE.Forcing) if spec["plugin"] == "mine" else (G.Grid, G.Forcing)
+                try:
+                    grid = GridC(conf); f = ForC(conf, grid)
+                except SystemExit as e:
+                    # every generated configuration is valid: the forcing period covers [start, stop], the frames are strictly
+                    # increasing in time and the files exist
+                    ctx.branch("rejected_by_forcing_init")
+                    ctx.oracle(False, "C06.init.rejected", SITE_INIT, lbl + "Grid/Forcing initialisation exits (%r) for a forcing period that covers the run: "
+                               "frames %r s, stop %d s, input %s" % (e, ft, stop_s, form), cs)
+                    return None
+                except Exception as e:
+                    ctx.oracle(False, "C06.init.raises", SITE_INIT, lbl + "Grid/Forcing initialisation raised %r: frames %r s, stop %d s, input %s, time units %r"
+                               % (e, ft, stop_s, form, case["units"]), cs)
+                    return None
+                # frame values at the sample cells, as the class reads them: U[frame, k, Ju, Iu] with Iu = slice(i0-1, i1),
+                # V[frame, k, Jv, Iv] with Jv = slice(j0-1, j1), scalars [frame, k, J, I]
+                cells = [tuple(x) for x in case["cells"]]
+                uvals = [ALL["u"][:, k, grid.j0 + j, grid.i0 - 1 + i] for k, j, i in cells]
+                vvals = [ALL["v"][:, k, grid.j0 - 1 + j, grid.i0 + i] for k, j, i in cells]
+                svals = {nm: [ALL[nm][:, k, grid.j0 + j, grid.i0 + i] for k, j, i in cells] for nm in names}
+                # points where Forcing.velocity returns exactly one U (resp. V) node: X on a U-point, Y on a row, Z in the middle of layer k
+                zw = np.asarray(grid.z_w)
+
+                def zmid(k, jc, ic):
+                    jc = max(0, min(int(jc), zw.shape[1] - 1)); ic = max(0, min(int(ic), zw.shape[2] - 1))
+                    return -0.5 * (zw[k, jc, ic] + zw[k + 1, jc, ic])
+                XU = np.array([grid.i0 + i - 0.5 for k, j, i in cells]); YU = np.array([float(grid.j0 + j) for k, j, i in cells])
+                ZU = np.array([zmid(k, j, np.around(i - 0.5)) for k, j, i in cells])
+                XV = np.array([float(grid.i0 + i) for k, j, i in cells]); YV = np.array([grid.j0 + j - 0.5 for k, j, i in cells])
+                ZV = np.array([zmid(k, np.around(j - 0.5), i) for k, j, i in cells])
+                return dict(spec=spec, idx=idx, f=f, grid=grid, cs=cs, lbl=lbl, cells=cells, uvals=uvals, vvals=vvals, svals=svals,
+                            pts=(XU, YU, ZU, XV, YV, ZV), served=[], err=None)
+
+            def step_run(R, i):
+                """the i-th update of the run's schedule, and the observation after it"""
+                spec = R["spec"]
+                if R["err"] is not None or i >= len(spec["sched"]):
+                    return
+                f = R["f"]; cells = R["cells"]; names = spec["names"]; XU, YU, ZU, XV, YV, ZV = R["pts"]
+                t = spec["sched"][i]
+                try:
+                    f.update(np.int64(t) if spec["t_np"] else t)
                     su = f.velocity(XU, YU, ZU)[0]; sv = f.velocity(XV, YV, ZV)[1]
-                    served.append(dict(U=[float(f.U[cl]) for cl in cells], V=[float(f.V[cl]) for cl in cells],
-                                       S={nm: [float(f[nm][cl]) for cl in cells] for nm in names},
-                                       velU=[float(x) for x in su], velV=[float(x) for x in sv]))
-                err = None
-            except (Exception, SystemExit) as e:
-                err = e
-            try:
-                f.close()
-            except Exception:
-                pass
-            aligned_frames = all(x % dt == 0 for x in ft)
-            steps_h = [int(x / dt) for x in ft]                   # the step table of the class: offsets truncated to whole steps
-            strict_h = all(x < y for x, y in zip(steps_h[:-1], steps_h[1:]))
-            if not aligned_frames:
-                ctx.branch("unaligned.strict_steps" if strict_h else "unaligned.duplicate_steps")
-            if err is not None:
-                # F-C06e-R (exception) is caused by two frames truncated to the same step; with distinct steps no exception is known
-                ctx.oracle(False, "C06.update.raises" if (aligned_frames or strict_h) else "C06.update.raises_unaligned_dt", SITE,
-                           "update raised %r at schedule %r" % (err, sched), cs)
-                continue
-            # oracle in *time*
-            ft_arr = np.array(ft, dtype=float)
-            st_arr = np.array(steps_h, dtype=float)
-            if storage == "f8":
-                vrel, vabs, sabs = 1e-9, 1e-12, 1e-9
-            else:
-                # the class keeps float32 / int16-scaled fields in float32 (eps 6e-8): |u| <= 0.5, <= 42 accumulated increments;
-                # decoded scalars |s| <= 10 with float32 scale/offset arithmetic
-                vrel, vabs, sabs = 1e-5, 5e-6, 2e-6
+                    R["served"].append(dict(U=[float(f.U[cl]) for cl in cells], V=[float(f.V[cl]) for cl in cells],
+                                            S={nm: [float(f[nm][cl]) for cl in cells] for nm in names},
+                                            velU=[float(x) for x in su], velV=[float(x) for x in sv]))
+                except (Exception, SystemExit) as e:
+                    R["err"] = e
 
-            def judge_velocity(val, vals, t, what, site, aligned_pred):
-                tm = t * dt
-                want, _ = _lerp(tm, ft_arr, vals)
-                okv = close(val, want, vrel, vabs)
-                if aligned_frames:
-                    pred = aligned_pred
-                elif not strict_h:
-                    pred = "C06.velocity.unaligned_dt"
+            def finish_run(R):
+                """close the run and judge everything it served against the file contents"""
+                spec = R["spec"]; f = R["f"]; cs = R["cs"]; lbl = R["lbl"]; cells = R["cells"]
+                dt = spec["dt"]; ft = spec["frame_times"]; sched = spec["sched"]; names = spec["names"]
+                uvals = R["uvals"]; vvals = R["vvals"]; svals = R["svals"]; served = R["served"]; err = R["err"]
+                try:
+                    f.close()
+                except Exception:
+                    pass
+                aligned_frames = all(x % dt == 0 for x in ft)
+                steps_h = [int(x / dt) for x in ft]                   # the step table of the class: offsets truncated to whole steps
+                strict_h = all(x < y for x, y in zip(steps_h[:-1], steps_h[1:]))
+                if not aligned_frames:
+                    ctx.branch("unaligned.strict_steps" if strict_h else "unaligned.duplicate_steps")
+                if err is not None:
+                    # F-C06e-R (exception) is caused by two frames truncated to the same step; with distinct steps no exception is known
+                    ctx.oracle(False, "C06.update.raises" if (aligned_frames or strict_h) else "C06.update.raises_unaligned_dt", SITE,
+                               lbl + "update raised %r at schedule %r" % (err, sched), cs)
+                    return
+                # oracle in *time*
+                ft_arr = np.array(ft, dtype=float)
+                st_arr = np.array(steps_h, dtype=float)
+                if storage == "f8":
+                    vrel, vabs, sabs = 1e-9, 1e-12, 1e-9
                 else:
-                    # known finding F-C06e-U narrowed: the design limitation predicts interpolation between the frames placed at
-                    # their truncated steps; any other value is not the known finding
-                    want_s, _ = _lerp(float(t), st_arr, vals)
-                    pred = "C06.velocity.unaligned_dt" if close(val, want_s, vrel, vabs) else "C06.velocity.unaligned_dt.other"
-                # the unaligned-dt deviation is that of the stored field (known finding at Forcing.update), whichever way it is observed
-                ctx.oracle(okv, pred, site if aligned_frames else SITE, "step %d (%d s): served %s=%r, time-interpolated frames give %r (schedule %r)"
-                           % (t, tm, what, val, want, sched[:8]), dict(cs, step=t, field=what))
+                    # the class keeps float32 / int16-scaled fields in float32 (eps 6e-8): |u| <= 0.5, <= 42 accumulated increments;
+                    # decoded scalars |s| <= 10 with float32 scale/offset arithmetic
+                    vrel, vabs, sabs = 1e-5, 5e-6, 2e-6
+                    if spec["role"] != "primary":
+                        # further runs may use a smaller time step than the primary: up to 600 accumulated float32 increments of
+                        # one frame interval, each rounded with <= 0.5 ulp(1) = 6e-8 for |u| <= 1: <= 3.6e-5 absolute
+                        vabs = max(vabs, 6e-8 * max(y - x for x, y in zip(steps_h[:-1], steps_h[1:])))
 
-            def judge_scalar(s, vals, t, what):
-                tm = t * dt
-                _, b = _lerp(tm, ft_arr, vals)
-                lo, hi = min(vals[b], vals[b + 1]), max(vals[b], vals[b + 1])
-                eq = (lambda a, b_: same_bits(a, b_)) if storage != "int16" else (lambda a, b_: close(a, b_, 1e-6, sabs))
-                # step-indexed expectation (what the design limitation F-C06e predicts), used only to narrow the known finding
-                step_ok = True
-                if not aligned_frames and strict_h:
-                    if t in steps_h:
-                        q = steps_h.index(t)
-                        step_ok = eq(s, vals[q]) or (t == 0 and q == 0 and q + 1 < len(vals) and eq(s, vals[q + 1]))   # F-C06a in step space
+                def judge_velocity(val, vals, t, what, site, aligned_pred):
+                    tm = t * dt
+                    want, _ = _lerp(tm, ft_arr, vals)
+                    okv = close(val, want, vrel, vabs)
+                    if aligned_frames:
+                        pred = aligned_pred
+                    elif not strict_h:
+                        pred = "C06.velocity.unaligned_dt"
                     else:
-                        _, bs = _lerp(float(t), st_arr, vals)
-                        step_ok = min(vals[bs], vals[bs + 1]) - sabs <= s <= max(vals[bs], vals[bs + 1]) + sabs
-                una = "C06.scalar.unaligned_dt" if step_ok else "C06.scalar.unaligned_dt.other"
-                if tm in ft:
-                    fr_i = ft.index(tm)
-                    # known finding F-C06a: starting ON THE FIRST FRAME (start-on-frame branch of the initialisation), at the start step
-                    # the scalar holds exactly the NEXT frame
-                    nxt = fr_i + 1 < len(vals) and eq(s, vals[fr_i + 1])      # bit-equal (float32 tolerance for int16-scaled files)
-                    pred = "C06.scalar.on_frame" if (t > 0 or not aligned_frames or not nxt or ft[0] != 0) else "C06.scalar.t0_next_frame"
-                    if not aligned_frames: pred = una
-                    ctx.oracle(eq(s, vals[fr_i]), pred, SITE,
-                               "step %d coincides with frame %d: served %s %r, frame holds %r" % (t, fr_i, what, s, vals[fr_i]), dict(cs, step=t, field=what))
-                else:
-                    pred = "C06.scalar.outside_bracket" if aligned_frames else una
-                    ctx.oracle(lo - sabs <= s <= hi + sabs, pred, SITE,
-                               "step %d: served %s %r outside the two enclosing frames [%r, %r]" % (t, what, s, lo, hi), dict(cs, step=t, field=what))
+                        # known finding F-C06e-U narrowed: the design limitation predicts interpolation between the frames placed at
+                        # their truncated steps; any other value is not the known finding
+                        want_s, _ = _lerp(float(t), st_arr, vals)
+                        pred = "C06.velocity.unaligned_dt" if close(val, want_s, vrel, vabs) else "C06.velocity.unaligned_dt.other"
+                    # the unaligned-dt deviation is that of the stored field (known finding at Forcing.update), whichever way it is observed
+                    ctx.oracle(okv, pred, site if aligned_frames else SITE, lbl + "step %d (%d s): served %s=%r, time-interpolated frames give %r (schedule %r)"
+                               % (t, tm, what, val, want, sched[:8]), dict(cs, step=t, field=what))
 
-            for t, sv in zip(sched, served):
-                tm = t * dt
-                if tm < ft_arr[0] or tm > ft_arr[-1]:
-                    continue
-                for ci, cl in enumerate(cells):
-                    judge_velocity(sv["U"][ci], uvals[ci], t, "U%r" % (cl,), SITE, "C06.velocity.not_interpolated")
-                    judge_velocity(sv["V"][ci], vvals[ci], t, "V%r" % (cl,), SITE, "C06.velocity.not_interpolated")
-                    judge_velocity(sv["velU"][ci], uvals[ci], t, "velocity(X,Y,Z)[0] at the U-node %r" % (cl,), SITE_VEL,
-                                   "C06.velocity.sampled_not_interpolated")
-                    judge_velocity(sv["velV"][ci], vvals[ci], t, "velocity(X,Y,Z)[1] at the V-node %r" % (cl,), SITE_VEL,
-                                   "C06.velocity.sampled_not_interpolated")
-                    for nm in names:
-                        judge_scalar(sv["S"][nm][ci], svals[nm][ci], t, "%s%r" % (nm, cl))
-            strictly = all(x < y for x, y in zip(f.steps[:-1], f.steps[1:]))
-            if not strictly:
-                ctx.branch("duplicate_steps_outside_model_domain")     # unaligned dt: covered by the known findings F-C06e-*
-            if drv.available and strictly and storage == "f8":
-                a = drv.ask("roms.steps", I(dt), L(ft, I))
-                zeros = np.zeros(len(ft))
-                # (velocity component, scalar) pairs at the first cell: U with the first scalar, V with the last scalar
-                pairs = [("U", uvals[0], [x["U"][0] for x in served], names[0] if names else None),
-                         ("V", vvals[0], [x["V"][0] for x in served], names[-1] if names else None)]
-                for p_i, (comp, cv, cserved, nm) in enumerate(pairs):
-                    sv_f = svals[nm][0] if nm else zeros
-                    sserved = [x["S"][nm][0] for x in served] if nm else [0.0] * len(served)
-                    fr_toks = " ".join("%d %s %s" % (st_, F(uv), F(sv_)) for st_, uv, sv_ in zip(f.steps, cv, sv_f))
-                    b0 = drv.ask("roms.run", "1 1 0", I(len(f.steps)), fr_toks, L(sched, I))
-                    b1 = drv.ask("roms.run", "1 1 1", I(len(f.steps)), fr_toks, L(sched, I))
-                    pend.append((a if p_i == 0 else None, b0, b1, list(f.steps), list(zip(cserved, sserved)), dict(cs, component=comp, scalar=nm), comp))
+                def judge_scalar(s, vals, t, what):
+                    tm = t * dt
+                    _, b = _lerp(tm, ft_arr, vals)
+                    lo, hi = min(vals[b], vals[b + 1]), max(vals[b], vals[b + 1])
+                    eq = (lambda a, b_: same_bits(a, b_)) if storage != "int16" else (lambda a, b_: close(a, b_, 1e-6, sabs))
+                    # step-indexed expectation (what the design limitation F-C06e predicts), used only to narrow the known finding
+                    step_ok = True
+                    if not aligned_frames and strict_h:
+                        if t in steps_h:
+                            q = steps_h.index(t)
+                            step_ok = eq(s, vals[q]) or (t == 0 and q == 0 and q + 1 < len(vals) and eq(s, vals[q + 1]))   # F-C06a in step space
+                        else:
+                            _, bs = _lerp(float(t), st_arr, vals)
+                            step_ok = min(vals[bs], vals[bs + 1]) - sabs <= s <= max(vals[bs], vals[bs + 1]) + sabs
+                    una = "C06.scalar.unaligned_dt" if step_ok else "C06.scalar.unaligned_dt.other"
+                    if tm in ft:
+                        fr_i = ft.index(tm)
+                        # known finding F-C06a: starting ON THE FIRST FRAME (start-on-frame branch of the initialisation), at the start step
+                        # the scalar holds exactly the NEXT frame
+                        nxt = fr_i + 1 < len(vals) and eq(s, vals[fr_i + 1])      # bit-equal (float32 tolerance for int16-scaled files)
+                        pred = "C06.scalar.on_frame" if (t > 0 or not aligned_frames or not nxt or ft[0] != 0) else "C06.scalar.t0_next_frame"
+                        if not aligned_frames: pred = una
+                        ctx.oracle(eq(s, vals[fr_i]), pred, SITE,
+                                   lbl + "step %d coincides with frame %d: served %s %r, frame holds %r" % (t, fr_i, what, s, vals[fr_i]), dict(cs, step=t, field=what))
+                    else:
+                        pred = "C06.scalar.outside_bracket" if aligned_frames else una
+                        ctx.oracle(lo - sabs <= s <= hi + sabs, pred, SITE,
+                                   lbl + "step %d: served %s %r outside the two enclosing frames [%r, %r]" % (t, what, s, lo, hi), dict(cs, step=t, field=what))
+
+                for t, sv in zip(sched, served):
+                    tm = t * dt
+                    if tm < ft_arr[0] or tm > ft_arr[-1]:
+                        continue
+                    for ci, cl in enumerate(cells):
+                        judge_velocity(sv["U"][ci], uvals[ci], t, "U%r" % (cl,), SITE, "C06.velocity.not_interpolated")
+                        judge_velocity(sv["V"][ci], vvals[ci], t, "V%r" % (cl,), SITE, "C06.velocity.not_interpolated")
+                        judge_velocity(sv["velU"][ci], uvals[ci], t, "velocity(X,Y,Z)[0] at the U-node %r" % (cl,), SITE_VEL,
+                                       "C06.velocity.sampled_not_interpolated")
+                        judge_velocity(sv["velV"][ci], vvals[ci], t, "velocity(X,Y,Z)[1] at the V-node %r" % (cl,), SITE_VEL,
+                                       "C06.velocity.sampled_not_interpolated")
+                        for nm in names:
+                            judge_scalar(sv["S"][nm][ci], svals[nm][ci], t, "%s%r" % (nm, cl))
+                strictly = all(x < y for x, y in zip(f.steps[:-1], f.steps[1:]))
+                if not strictly:
+                    ctx.branch("duplicate_steps_outside_model_domain")     # unaligned dt: covered by the known findings F-C06e-*
+                if drv.available and strictly and storage == "f8":
+                    a = drv.ask("roms.steps", I(dt), L(ft, I))
+                    zeros = np.zeros(len(ft))
+                    # (velocity component, scalar) pairs at the first cell: U with the first scalar, V with the last scalar
+                    pairs = [("U", uvals[0], [x["U"][0] for x in served], names[0] if names else None),
+                             ("V", vvals[0], [x["V"][0] for x in served], names[-1] if names else None)]
+                    for p_i, (comp, cv, cserved, nm) in enumerate(pairs):
+                        sv_f = svals[nm][0] if nm else zeros
+                        sserved = [x["S"][nm][0] for x in served] if nm else [0.0] * len(served)
+                        fr_toks = " ".join("%d %s %s" % (st_, F(uv), F(sv_)) for st_, uv, sv_ in zip(f.steps, cv, sv_f))
+                        b0 = drv.ask("roms.run", "1 1 0", I(len(f.steps)), fr_toks, L(sched, I))
+                        b1 = drv.ask("roms.run", "1 1 1", I(len(f.steps)), fr_toks, L(sched, I))
+                        pend.append((a if p_i == 0 else None, b0, b1, list(f.steps), list(zip(cserved, sserved)), dict(cs, component=comp, scalar=nm), comp))
+
+            if not concurrent:
+                for idx, spec in enumerate(specs):
+                    R = open_run(spec, idx)
+                    if R is None:
+                        continue
+                    for i in range(len(spec["sched"])):
+                        step_run(R, i)
+                    finish_run(R)
+            else:
+                Rs = [R for R in (open_run(spec, idx) for idx, spec in enumerate(specs)) if R is not None]
+                for i in range(max(len(s_["sched"]) for s_ in specs)):
+                    for R in Rs:
+                        step_run(R, i)
+                for R in Rs:
+                    finish_run(R)
     finally:
         shutil.rmtree(tmp, ignore_errors=True)
     if drv.available:
